@@ -70,6 +70,14 @@ def worker(chunk):
                     fw = ER.World(spec)
                     threads_pool_registry._pool_executor._shutdown = down
                     fresh = ER.run_program(spec, ER.ScriptPolicy(tr['choices']), inputs=[dict(ik0)], world=fw)
+                    # C03: every body invocation of the history run gets the arguments it gets on a fresh chart
+                    ba = [o[2:] for e in tr['events'] for o in e.get('obs', []) if o[0] == 'body']
+                    bb = [o[2:] for e in fresh['events'] for o in e.get('obs', []) if o[0] == 'body']
+                    if ba != bb and fresh['verdict'] == tr['verdict']:
+                        dif = next((x for x, y in zip(ba, bb) if x != y), None)
+                        rec.setdefault('viol_c03', []).append(
+                            f'run {r} of the history invokes node {dif[0] if dif else "?"} with {dif[3] if dif else "?"}; on a '
+                            f'fresh chart under the same schedule the arguments differ (a value from another run)')
                     a, b = fresh['results'][0], tr['results'][0]
                     both_err = bool(a and b and a[0] == 'error' and b[0] == 'error')   # any root cause is legitimate (C05)
                     if (fresh['results'] != tr['results'] and not both_err) or fresh['verdict'] != tr['verdict']:
@@ -118,7 +126,7 @@ def worker(chunk):
                     rec['inputs'] = inputs
         except Exception as e:  # noqa
             rec['harness_error'] = repr(e)[:300]
-        if not (rec['div'] or rec['viol'] or rec.get('harness_error')):
+        if not (rec['div'] or rec['viol'] or rec.get('viol_c03') or rec.get('harness_error')):
             rec.pop('spec')
         out.append(rec)
     return out
@@ -171,6 +179,22 @@ def main_for(pid, tier_):
         'node classes are stateless (deterministic functions of their arguments)',
         'pool registries are process-wide singletons: modelled only as ready / not ready (C17)'])
     return C.EXIT_OK
+
+
+def c03_histories(n):
+    """C03's "never a value from another run": histories on one chart, arguments compared with a fresh chart"""
+    rng = random.Random(C.seed() * 911 + 3)
+    profs = ('rec', 'mixed', 'rec', 'shared', 'oneof', 'switch')
+    cases = [('C07', rng.randrange(1 << 40), profs[i % len(profs)]) for i in range(n)]
+    chunks = [cases[i:i + 8] for i in range(0, len(cases), 8)]
+    recs = []
+    with mp.get_context('fork').Pool(sched.NPROC) as pool:
+        for r in pool.imap_unordered(worker, chunks):
+            recs += r
+    bad = [r for r in recs if r.get('viol_c03')]
+    stats = {'histories': len(recs), 'history_runs': sum(r.get('runs', 0) for r in recs),
+             'history_harness_errors': sum(1 for r in recs if r.get('harness_error'))}
+    return stats, bad
 
 
 def replay(path):
